@@ -66,6 +66,42 @@ func esApply(s *MemoryEventStore, toks []string) (obs string) {
 			out = append(out, "x"+hx(d))
 		}
 		return strings.Join(out, " ")
+	case "afteri":
+		// afteri <sess> <stream> <idx> <k> <sess2> <stream2> <payload>: iterate After and, after k items have been
+		// yielded, append to (sess2, stream2) from inside the loop body (may purge), then go on iterating.
+		// The iterator must deliver what was retained when it started: After copies under the lock.
+		var idx, k int
+		fmt.Sscanf(toks[3], "%d", &idx)
+		fmt.Sscanf(toks[4], "%d", &k)
+		var d []byte
+		fmt.Sscanf(toks[7], "x%x", &d)
+		out := []string{"items"}
+		n, done := 0, false
+		inject := func() {
+			if !done {
+				done = true
+				s.Append(ctx, toks[5], toks[6], d)
+			}
+		}
+		for it, err := range s.After(ctx, toks[1], toks[2], idx) {
+			if err != nil {
+				inject()
+				if errors.Is(err, ErrEventsPurged) {
+					if len(out) > 1 {
+						return "partial-then-purged"
+					}
+					return "purged"
+				}
+				return "unknown"
+			}
+			out = append(out, "x"+hx(it))
+			n++
+			if n == k {
+				inject()
+			}
+		}
+		inject()
+		return strings.Join(out, " ")
 	case "setmax":
 		var n int
 		fmt.Sscanf(toks[1], "%d", &n)
@@ -132,6 +168,13 @@ func (g *esGen) next() string {
 	case r < 50:
 		g.count[key]++
 		return "append " + sess + " " + stream + " " + g.payload()
+	case r < 56:
+		n := g.count[key]
+		idx := g.rng.Intn(n+2) - 1
+		s2 := []string{"s1", "s2", "s3"}[g.rng.Intn(3)]
+		t2 := []string{"a", "b", "c"}[g.rng.Intn(3)]
+		g.count[s2+"/"+t2]++
+		return fmt.Sprintf("afteri %s %s %d %d %s %s %s", sess, stream, idx, g.rng.Intn(3), s2, t2, g.payload())
 	case r < 80:
 		n := g.count[key]
 		idx := g.rng.Intn(n+3) - 1 // -1 .. n+1
